@@ -124,6 +124,19 @@ static ABT_pool_context nd_ctx(void)
 #define PUSHES_HEAD(c) 0
 #define POPS_TAIL(c) 0
 #endif
+#if KIND == 1
+/* FIFO_WAIT: consumers blocked in pop_wait/pop_timedwait sleep on the pool's condition variable.  With nwait of them
+ * asleep (symbolic), a push of m units must deliver at least min(m, nwait) wake-ups (signal = 1, broadcast = all),
+ * otherwise a unit pushed while a consumer waits is not handed to it until its timeout. */
+static void check_wakeups(int m, int nwait)
+{
+    int delivered = vr_cond_broadcasts ? nwait : (vr_cond_signals < nwait ? vr_cond_signals : nwait);
+    int need = m < nwait ? m : nwait;
+    VR_ASSERT(delivered >= need, "FIFO_WAIT push wakes enough blocked consumers for the units it adds");
+}
+#else
+#define check_wakeups(m, n) ((void)0)
+#endif
 static int idx_of(ABT_thread th) { for (int i = 0; i < NT; i++) if (th == (ABT_thread)TP[i]) return i; return -1; }
 
 int main(void)
@@ -132,9 +145,11 @@ int main(void)
     ABT_pool pool = (ABT_pool)&P;
     ABT_pool_context ctx = nd_ctx();
     int gn0 = gn;
+    int nwait = nondet_int(); VR_ASSUME(nwait >= 0 && nwait <= 2);
 #if OP == 0 /* push one unit that is not in the pool */
     int k = nondet_int(); VR_ASSUME(k >= 0 && k < NT && !in_ghost(k));
     PUSH(pool, TP[k]->unit, ctx);
+    check_wakeups(1, nwait);
 #if KIND == 2
     if (PUSHES_HEAD(ctx)) { g_push_head(k); if (gn0 == 2) VR_WITNESS("push at head"); } else
 #endif
@@ -151,6 +166,7 @@ int main(void)
     VR_ASSUME(k0 >= 0 && k0 < NT && k1 >= 0 && k1 < NT && k0 != k1 && !in_ghost(k0) && !in_ghost(k1));
     ABT_unit us[2] = { TP[k0]->unit, TP[k1]->unit };
     PUSH_MANY(pool, us, (size_t)m, ctx);
+    check_wakeups(m, nwait);
     for (int i = 0; i < 2; i++) if (i < m) { if (PUSHES_HEAD(ctx)) g_push_head(i ? k1 : k0); else g_push_tail(i ? k1 : k0); }
     if (m == 2 && gn0 == 3) VR_WITNESS("push_many 2 onto 3");
     check_inv();
